@@ -113,6 +113,40 @@ pub fn cost_child(a: &Args) {
     );
 }
 
+/// run a measured child; None when it does not finish within `secs` (killed: a blow-up is data)
+fn child_output(mut cmd: std::process::Command, secs: u64) -> Option<std::process::Output> {
+    use std::io::Read;
+    let mut child = cmd.stdout(std::process::Stdio::piped()).stderr(std::process::Stdio::piped()).spawn().expect("spawn");
+    let mut so = child.stdout.take().unwrap();
+    let mut se = child.stderr.take().unwrap();
+    let h1 = std::thread::spawn(move || {
+        let mut v = vec![];
+        let _ = so.read_to_end(&mut v);
+        v
+    });
+    let h2 = std::thread::spawn(move || {
+        let mut v = vec![];
+        let _ = se.read_to_end(&mut v);
+        v
+    });
+    let t0 = std::time::Instant::now();
+    let status = loop {
+        match child.try_wait().unwrap() {
+            Some(st) => break Some(st),
+            None => {
+                if t0.elapsed() > std::time::Duration::from_secs(secs) {
+                    let _ = child.kill();
+                    let _ = child.wait();
+                    break None;
+                }
+                std::thread::sleep(std::time::Duration::from_millis(3));
+            }
+        }
+    };
+    let (stdout, stderr) = (h1.join().unwrap_or_default(), h2.join().unwrap_or_default());
+    status.map(|status| std::process::Output { status, stdout, stderr })
+}
+
 pub fn run(a: &Args) {
     let out = a.req("out").to_string();
     let quick = a.get("tier").unwrap_or("quick") == "quick";
@@ -128,20 +162,29 @@ pub fn run(a: &Args) {
                 n *= 2;
             }
             while n * unit <= max_bytes + max_bytes / 8 {
-                let o = std::process::Command::new(&exe)
-                    .args(["cost-child", "--family", fam, "--n", &n.to_string(), "--mode", mode])
-                    .output()
-                    .expect("spawn");
-                let text = String::from_utf8_lossy(&o.stdout).to_string();
-                let ev: serde_json::Value = serde_json::from_str(text.trim()).unwrap_or_else(|_| {
-                    json!({"ev": "alloc", "family": fam, "n": n, "mode": mode, "status": format!("crash:{:?}", o.status.code()),
+                let mut cmd = std::process::Command::new(&exe);
+                cmd.args(["cost-child", "--family", fam, "--n", &n.to_string(), "--mode", mode]);
+                // twice the wall-clock back-stop of Trace_Cost (3 s + 10 ms per KiB), then the child is killed
+                let kib_in = kib(n * unit);
+                let budget = 2 * (3000 + 10 * kib_in as u64) / 1000 + 1;
+                let o = child_output(cmd, budget);
+                let ev: serde_json::Value = match &o {
+                    None => json!({"ev": "alloc", "family": fam, "n": n, "mode": mode, "status": "timeout", "kib_in": kib_in, "kib_used": kib_in,
+                        "alloc_kib": 0, "calls": 0, "peak_kib": 0, "ms": budget * 1000}),
+                    Some(o) => serde_json::from_str(String::from_utf8_lossy(&o.stdout).trim()).unwrap_or_else(|_| {
+                        json!({"ev": "alloc", "family": fam, "n": n, "mode": mode, "status": format!("crash:{:?}", o.status.code()),
                         "kib_in": 0, "kib_used": 1, "alloc_kib": 0, "calls": 0, "peak_kib": 0, "ms": 0})
-                });
+                    }),
+                };
+                let timed_out = o.is_none();
                 if samples.len() < 4 {
                     samples.push(ev.clone());
                 }
                 sink.emit(&ev, &json!({"how": format!("vh cost-child --family {} --n {} --mode {}", fam, n, mode)}));
                 runs += 1;
+                if timed_out {
+                    break; // larger inputs of this family would only take longer
+                }
                 n *= 2;
             }
         }
@@ -172,12 +215,15 @@ pub fn run(a: &Args) {
         hs.push(std::thread::spawn(move || loop {
             let job = jobs.lock().unwrap().pop();
             let Some((idx, (_fi, fam, n, mode))) = job else { break };
-            let o = std::process::Command::new("valgrind")
-                .args(["--tool=callgrind", "--callgrind-out-file=/dev/null"])
-                .arg(&exe)
-                .args(["cost-child", "--family", fam, "--n", &n.to_string(), "--mode", mode])
-                .output()
-                .expect("spawn valgrind");
+            let mut cmd = std::process::Command::new("valgrind");
+            cmd.args(["--tool=callgrind", "--callgrind-out-file=/dev/null"]).arg(&exe).args(["cost-child", "--family", fam, "--n", &n.to_string(), "--mode", mode]);
+            // the instruction bound of Trace_Cost at >= 5 M instructions / s under callgrind, and never less than 2 minutes
+            let kib_in = kib(n * BOMB_FAMILIES.iter().find(|f| f.0 == fam).map(|f| f.1).unwrap_or(1));
+            let Some(o) = child_output(cmd, (kib_in as u64 * 2 / 5).max(120)) else {
+                results.lock().unwrap().push((idx, json!({"ev": "instr", "family": fam, "n": n, "mode": mode, "kib_in": kib_in, "status": "timeout",
+                    "kinstr": 0, "measured": true})));
+                continue;
+            };
             let err = String::from_utf8_lossy(&o.stderr).to_string();
             let ir: u64 = err.lines().find(|l| l.contains("Collected :")).and_then(|l| l.split(':').nth(1)).and_then(|x| x.trim().parse().ok()).unwrap_or(0);
             let child: serde_json::Value = serde_json::from_str(String::from_utf8_lossy(&o.stdout).trim()).unwrap_or(json!({"kib_in": 0, "status": "crash"}));
